@@ -64,5 +64,9 @@ namespace sim
    SIM_IO_DECL( 5, 1 )
    SIM_IO_DECL( 5, 2 )
    SIM_IO_DECL( 5, 3 )
+   SIM_IO_DECL( 6, 0 )
+   SIM_IO_DECL( 6, 1 )
+   SIM_IO_DECL( 6, 2 )
+   SIM_IO_DECL( 6, 3 )
 #undef SIM_IO_DECL
 }  // namespace sim
